@@ -23,6 +23,9 @@ def _dispatch(name, interp, obj, *rest):
 
 
 def try_getattr(interp, obj, name, node):
+    kind = getattr(obj, 'kind', None)
+    if kind is not None and hasattr(kind, 'getattr'):
+        return kind.getattr(interp, obj, name, node)
     return _dispatch('getattr', interp, obj, name, node)
 
 
